@@ -770,8 +770,10 @@ class Device:
             self.connector.send_event(message)
         elif isinstance(message, HubMessage):
             # If a filter is set and message does not match, save it in our
-            # pending messages queue.
-            if self.__msg_filter is not None and self.__msg_filter(message):
+            # pending messages queue. The filter is read only once: it may be
+            # reset (set_queue_filter(None)) by another thread at any time.
+            msg_filter = self.__msg_filter
+            if msg_filter is not None and msg_filter(message):
                 self.__out_messages.put(message)
             else:
                 logger.debug("[%s] forwarding message to connector %s",
